@@ -44,6 +44,7 @@ var (
 	tValueWrap = reflect.StructOf([]reflect.StructField{{Name: "Value", Type: tInt64}})
 	tStrWrap   = reflect.StructOf([]reflect.StructField{{Name: "Value", Type: asn.IA5StringType}})
 	tListWrap  = reflect.StructOf([]reflect.StructField{{Name: "List", Type: reflect.SliceOf(tInt64)}})
+	tEmpty     = reflect.StructOf(nil)
 )
 
 type fieldKind struct {
@@ -67,6 +68,14 @@ func fieldKinds() []fieldKind {
 		{"valwrap", tValueWrap, "", false}, {"strwrap", tStrWrap, "", false}, {"listwrap", tListWrap, "", false},
 		{"seqs", reflect.SliceOf(tInner), "", false}, {"choices", reflect.SliceOf(tChoice), "", false},
 		{"octetslist", reflect.SliceOf(asn.OctetStringType), "", false},
+		// SET OF: the list is a SET, its elements keep their own type
+		{"setofseqs", reflect.SliceOf(tInner), "set", false}, {"setofints", reflect.SliceOf(tInt64), "set", false},
+		{"setoflists", reflect.SliceOf(reflect.SliceOf(tInt64)), "set", false},
+		// Go kinds the codec has no encoding for: an error, not a crash
+		{"int16", reflect.TypeOf(int16(0)), "", false}, {"uint32", reflect.TypeOf(uint32(0)), "", false}, {"float64", reflect.TypeOf(float64(0)), "", false},
+		{"uint8s", reflect.SliceOf(reflect.TypeOf(uint8(0))), "", false},
+		// SEQUENCE {} (no members)
+		{"empty", tEmpty, "", false}, {"optempty", reflect.PointerTo(tEmpty), "optional", true}, {"emptys", reflect.SliceOf(tEmpty), "", false},
 	}
 }
 
@@ -92,7 +101,8 @@ func universe(tier string) (out []uType) {
 	}{{"int64", tInt64, ""}, {"int", tInt, ""}, {"int32", tInt32, ""}, {"bool", tBool, ""}, {"BitString", asn.BitStringType, ""}, {"OctetString", asn.OctetStringType, ""},
 		{"Enumerated", asn.EnumeratedType, ""}, {"NULL", asn.NullType, ""}, {"UTF8String", asn.UTF8StringType, "utf8"}, {"IA5String", asn.IA5StringType, "ia5"},
 		{"GraphicString", asn.GraphicStringType, "graphic"}, {"string", tString, "utf8"}, {"ObjectIdentifier", asn.ObjectIdentifierType, ""},
-		{"[]int64", reflect.SliceOf(tInt64), ""}, {"[]OctetString", reflect.SliceOf(asn.OctetStringType), ""}}
+		{"[]int64", reflect.SliceOf(tInt64), ""}, {"[]OctetString", reflect.SliceOf(asn.OctetStringType), ""},
+		{"SET OF Inner", reflect.SliceOf(tInner), "set"}, {"SET OF []int64", reflect.SliceOf(reflect.SliceOf(tInt64)), "set"}, {"SEQUENCE {}", tEmpty, ""}}
 	for _, p := range prim {
 		ps := []string{p.p}
 		for _, tg := range []string{"tagNum:0", "tagNum:31,explicit", "tagNum:16384"} {
@@ -285,7 +295,7 @@ func berJob(t *testing.T, raw json.RawMessage) (any, error) {
 			Enumerate(a.K, func(c *Chooser) {}, func(c *Chooser) bool { return false }) // no-op keeps the import honest
 			var cur reflect.Value
 			build := func(c *Chooser) {
-				b := &builder{c: c, maxDepth: 5, errCases: true}
+				b := &builder{c: c, maxDepth: 5, errCases: true, big: ut.Name == "prim/OctetString" || ut.Name == "prim/UTF8String" || ut.Name == "prim/IA5String"}
 				cur = b.build(ut.T, p, "", 0)
 			}
 			// what a call returned belongs to the caller: the next call must not change it (nor what was decoded from it)
